@@ -106,7 +106,7 @@ static void state_out(const ZSTD_CCtx* c) {
     w_out("W", &ms->window);
     printf(" lde=%u dms=%d fnc=%d ntu=%u ofs=%d", ms->loadedDictEnd, ms->dictMatchState != NULL, ms->forceNonContiguous, ms->nextToUpdate, ms->opt.litLengthSum == 0);
     if (ms->dictMatchState) { w_out("DW", &ms->dictMatchState->window); }
-    if (ldmOn) { w_out("LW", &c->ldmState.window); printf(" llde=%u", c->ldmState.loadedDictEnd); }
+    if (ldmOn) { w_out("LW", &c->ldmState.window); printf(" llde=%u lcap=%zu", c->ldmState.loadedDictEnd, c->maxNbLdmSequences); }
     if (c->localDict.cdict) { const ZSTD_matchState_t* const cm = &c->localDict.cdict->matchState;
         w_out("CD", &cm->window); printf(" cdl=%u cdn=%u", cm->loadedDictEnd, cm->nextToUpdate); }
     /* direct observer of index_never_overflows on the real context */
